@@ -633,6 +633,132 @@ def _task_real(_):
     return res
 
 
+class RealAuthScenario(explore.Scenario):
+    """the same state machine over the *real* mechanisms (their cancel /
+    step bookkeeping included): peer credentials present, the cookie
+    exchange always answered with a wrong response"""
+    name = 'C06/real-machine'
+
+    def build(self):
+        import getpass
+        w = W()
+        w.keyring = tempfile.mkdtemp(prefix='mcx-keyring-')
+        os.chmod(w.keyring, 0o700)
+        w.conv = Conv(w.keyring, True)
+        user = binascii.hexlify(getpass.getuser().encode())
+        uid = binascii.hexlify(str(os.getuid()).encode())
+        w.uid = uid
+        w.mech = None
+        w.lines = [b'AUTH EXTERNAL ' + uid, b'AUTH ANONYMOUS',
+                   b'AUTH DBUS_COOKIE_SHA1 ' + user, b'AUTH',
+                   b'AUTH NOPE 6162', b'DATA 6162', b'DATA', b'CANCEL',
+                   b'ERROR', b'BEGIN', b'FOO']
+        # EXTERNAL asks for (empty) data once before it accepts
+        w.scripts = {b'EXTERNAL': ('CONTINUE', 'OK'), b'ANONYMOUS': ('OK',),
+                     b'DBUS_COOKIE_SHA1': ('CONTINUE', 'REJECT')}
+        w.model = RefServer(('REJECT',))
+        w.dead = False
+        return w
+
+    def close(self, w):
+        w.conv.close()
+        shutil.rmtree(w.keyring, ignore_errors=True)
+
+    def enabled(self, w):
+        if w.model.state in ('closed', 'authed') or w.dead:
+            return []
+        return [('l', i) for i in range(len(w.lines))]
+
+    def apply(self, w, ev):
+        line = w.lines[ev[1]]
+        before = w.model.key()
+        tag = '%s/%s' % (before[0], b' '.join(line.split(b' ')[:2])
+                         .decode('latin-1'))
+        m = w.model
+        # the reference machine with the script of the mechanism named
+        cmd, _, arg = line.partition(b' ')
+        if m.state == 'auth' and cmd == b'AUTH':
+            name = arg.split()[0] if arg.split() else None
+            if name in w.scripts:
+                m.script = w.scripts[name]
+                w.mech = name
+                m.pos = 0
+                want = m._step()
+            else:
+                want = m._reject()
+        else:
+            # (whom the data names is not compared: the bus goes by the
+            # peer credentials alone, which the statement allows)
+            want = m.line(line)
+        was_closing = w.conv.t.disconnecting
+        out = w.conv.send(line)
+        if w.conv.exc is not None:
+            w.dead = True
+            return [('%s/real-machine/raises-%s/%s'
+                     % (PROP, type(w.conv.exc).__name__, tag),
+                     'line %r in state %r raised %r' % (line, before,
+                                                        w.conv.exc))]
+        closed = w.conv.t.disconnecting and not was_closing
+        got = []
+        for l in out:
+            c = l.split(b' ')[0]
+            got.append('DATA:0' if c == b'DATA' else c.decode('latin-1'))
+        if closed:
+            got.append('CLOSE')
+        viol = []
+        if want == ['AUTHENTICATED']:
+            want = []
+        if want == ['CLOSE']:
+            ok = got and got[-1] == 'CLOSE' and all(
+                g in ('REJECTED', 'ERROR') for g in got[:-1])
+        else:
+            ok = got == want
+        if not ok:
+            viol.append(('%s/real-machine/reply/%s/expected=%s/got=%s'
+                         % (PROP, tag, '+'.join(want) or 'nothing',
+                            '+'.join(got) or 'nothing'),
+                         'line %r in state %r: expected %r, the bus '
+                         'answered %r' % (line, before, want, out)))
+        want_auth = 1 if m.state == 'authed' else 0
+        if w.conv.p.auth_calls != want_auth:
+            viol.append(('%s/real-machine/authenticated/%s' % (PROP, tag),
+                         'after %r in state %r connectionAuthenticated ran '
+                         '%d times, expected %d' % (line, before,
+                                                    w.conv.p.auth_calls,
+                                                    want_auth)))
+        left = _keyring_left(w.keyring)
+        if m.state in ('auth', 'begin', 'authed') and left:
+            # (a connection closed in mid-exchange cleans up when the
+            # transport reports the loss, which is not part of this search)
+            viol.append(('%s/real-machine/cookie-left/%s' % (PROP, tag),
+                         'after %r in state %r (no exchange in progress) the '
+                         'keyring still holds %r' % (line, before, left)))
+        return viol
+
+    def canon(self, w):
+        a = getattr(w.conv.p, '_dbusAuth', None)
+        # the fields left out of the digest below hold random / timed
+        # values; whether each is set is still part of the state, and so is
+        # what the keyring holds
+        shape = []
+        objs = [a] + [v for v in (vars(a).values() if a is not None else ())
+                      if hasattr(v, '__dict__') and type(v).__module__
+                      .split('.')[0] in ('txdbus', 'mcx')]
+        for o in objs:
+            if o is not None:
+                shape += sorted((type(o).__name__, k, v is None)
+                                for k, v in vars(o).items())
+        return (w.model.key(), w.dead, w.model.script, w.mech, tuple(shape),
+                len(_keyring_left(w.keyring)),
+                explore.impl_digest(a, ignore=(
+                    'protocol', 'server_guid', 'mechanisms', 'reject_msg',
+                    'challenge_str', 'cookie', 'cookie_id', 'timestamp',
+                    'lock_file', 'cookie_file', 'keyring_dir')))
+
+    def nontrivial(self, hist):
+        return len(hist) > 1
+
+
 # ---------------------------------------------------------------------------
 # part 3: framing of the line phase
 
@@ -754,6 +880,8 @@ def run(ctx):
         explore.explore(ctx, AuthScenario,
                         {'script': list(script), 'malformed': True},
                         max_depth=30, label='script ' + '-'.join(script))
+    explore.explore(ctx, RealAuthScenario, {}, max_depth=30,
+                    label='real mechanisms, wrong cookie response')
     explore.explore(ctx, CookieScenario,
                     {'connections': 2 if ctx.quick else 3,
                      'rounds': 2 if ctx.quick else 2},
